@@ -43,6 +43,14 @@ ASSUMPTIONS = [
     "schedule-independence of the par_* functions: partial - assumed from purity, validated by runs (DESIGN 1.5)",
     "direct calls of the doc(hidden) helper reduce_by_ntt_friendly_modulus with tail_length > shift_ntt.len() (usize "
     "underflow, profile dependent) are outside the modelled domain; no public caller produces such arguments",
+    "partial (full statements are Definitions in coq/props/C08.v, the functions are tied by the correspondence check and its "
+    "zarith specs): the even/odd recursion of fast_modular_coset_interpolate for codewords longer than 2^17 (C08_fmci_full; the "
+    "regimes up to 2^17 are C08_fmci_small_partial; 2^18 is run by the thorough tier), barycentric_evaluate "
+    "(C08_barycentric_full), the BFieldElement-offset instantiations of fast_coset_evaluate / fast_coset_interpolate over "
+    "XFieldElement, are_colinear / get_colinear_y",
+    "theorems that go through reduce / fast_reduce / reduce_by_ntt_friendly_modulus carry the C09 statements as hypotheses "
+    "(red_exact, fred_exact, rbnf_exact): C09_fast_reduce_full is not proved yet; the division family is modelled a second "
+    "time in coq/model/PolyInterp.v (pint_ names) because coq/model/PolyDiv.v appeared late - unifying the two is future work",
 ]
 RULE = ("n in {0,1,2,15,16,17,99,100,101,255,256,257} (thorough: 4095,4096,4097,8192) for every zerofier and interpolation "
         "strategy over arithmetic-progression, geometric-progression and random duplicate-free domains, duplicate abscissae, "
@@ -452,7 +460,7 @@ def extra_checks(ctx):
     """par_zerofier / par_interpolate / par_fast_interpolate / par_batch_evaluate / par_batch_coset_extrapolate under different
     thread settings: RAYON_NUM_THREADS (rayon's pool) and CPU affinity through taskset (what available_parallelism()
     observes; it decides the chunk sizes).  The oracle already checks that the model's result is the same for the thread
-    counts 1,2,3,5,16,64; here the implementation must reproduce it under every setting."""
+    counts 1,2,5,16; here the implementation must reproduce it under every setting."""
     import random
     import runner
     rng = random.Random(ctx["seed"] + 8)
